@@ -71,6 +71,20 @@ def rule_funnel(ctx):
                                 and x.id != resvar:
                             carriers.add(x.id)
                             changed = True
+    # a list filled element by element through safe_eval carries it too
+    changed = True
+    while changed:
+        changed = False
+        for n in own_nodes(w):
+            if isinstance(n, ast.Call) and isinstance(
+                    n.func, ast.Attribute) and n.func.attr in (
+                    'append', 'extend') and isinstance(
+                    n.func.value, ast.Name) and n.func.value.id not in carriers \
+                    and n.func.value.id != resvar and any(
+                    isinstance(c, ast.Name) and c.id in carriers
+                    for a in n.args for c in ast.walk(a)):
+                carriers.add(n.func.value.id)
+                changed = True
     BCAST = (('ext', 'numpy.vectorize'), ('ext', 'numpy.broadcast'),
              ('ext', 'numpy.broadcast_arrays'), ('ext', 'numpy.nditer'),
              ('ext', 'numpy.frompyfunc'), ('ext', 'numpy.broadcast_to'))
@@ -317,8 +331,28 @@ def rule_fill(ctx):
                 function='_init_reshape', line=ir.lineno)
     gs = p.func(FUNCS_REL, 'get_shape')
     rr.instances += 1
-    t = ' '.join(norm_src(n) for n in own_nodes(gs) if isinstance(n, ast.Assign))
-    if 'r = None if r == 1 else r' in t and 'c = None if c == 1 else c' in t:
+    def maps_one_to_none(prm):
+        for n in own_nodes(gs):
+            # p = None if p == 1 else p
+            if isinstance(n, ast.Assign) and len(n.targets) == 1 and isinstance(
+                    n.targets[0], ast.Name) and n.targets[0].id == prm and \
+                    isinstance(n.value, ast.IfExp):
+                v = n.value
+                if norm_src(v.test) in ('%s == 1' % prm, '1 == %s' % prm) and \
+                        norm_src(v.body) == 'None' and norm_src(v.orelse) == prm:
+                    return True
+            # if p == 1: p = None
+            if isinstance(n, ast.If) and not n.orelse and norm_src(n.test) in (
+                    '%s == 1' % prm, '1 == %s' % prm) and len(n.body) == 1 \
+                    and norm_src(n.body[0]) == '%s = None' % prm:
+                return True
+        return False
+
+    rets = [n.value for n in own_nodes(gs) if isinstance(n, ast.Return)]
+    in_order = len(rets) == 1 and isinstance(rets[0], ast.Tuple) and [
+        norm_src(e) for e in rets[0].elts] == gs.params[:2]
+    if len(gs.params) >= 2 and in_order and all(
+            maps_one_to_none(q) for q in gs.params[:2]):
         rr.ok('get_shape maps a size-1 axis to None (= repeat along that axis)',
               FUNCS_REL)
     else:
@@ -372,7 +406,8 @@ def rule_fill(ctx):
     sv = p.func(RANGES, 'Ranges.set_value')
     rr.instances += 1
     shp = find('__shape = _shape(**rng)', sv, stmt=True)
-    if shp and has('_reshape_array_as_excel(value, __shape)', sv, shp[0][1]):
+    if (shp and has('_reshape_array_as_excel(value, __shape)', sv, shp[0][1])) \
+            or has('_reshape_array_as_excel(value, _shape(**rng))', sv):
         rr.ok('Ranges.set_value fits the value to the shape of its range',
               RANGES)
     else:
